@@ -230,7 +230,7 @@ class SetEncoder(encoder.SequenceEncoder):
                     continue
 
                 compsMap[id(component)] = namedType
-                comps.append((component, asn1Spec[idx]))
+                comps.append((component, namedType.asn1Object))
 
         for comp, compType in sorted(comps, key=self._componentSortKey):
             namedType = compsMap[id(comp)]
